@@ -35,6 +35,8 @@ import (
 type Baseline struct {
 	Decls  map[string]map[string]string // kind -> qualified name -> type string
 	Locals map[string]map[string]bool   // qualified function -> set of defining expressions
+	Tags   map[string]map[string]bool   // qualified function -> tags of its tagged switch statements
+	Shapes map[string]map[string]int    // qualified function -> loose key of a defining expression -> how many locals have it
 }
 
 // Decl is one line of the inventory.
@@ -50,7 +52,7 @@ func LoadBaseline(path string) (*Baseline, error) {
 		return nil, err
 	}
 	defer f.Close()
-	b := &Baseline{Decls: map[string]map[string]string{}, Locals: map[string]map[string]bool{}}
+	b := &Baseline{Decls: map[string]map[string]string{}, Locals: map[string]map[string]bool{}, Tags: map[string]map[string]bool{}, Shapes: map[string]map[string]int{}}
 	sc := bufio.NewScanner(f)
 	sc.Buffer(make([]byte, 1<<20), 1<<24)
 	for sc.Scan() {
@@ -61,6 +63,20 @@ func LoadBaseline(path string) (*Baseline, error) {
 		parts := strings.SplitN(line, "\t", 3)
 		if len(parts) != 3 {
 			return nil, fmt.Errorf("%s: malformed line %q", path, line)
+		}
+		if parts[0] == "localshape" {
+			if b.Shapes[parts[1]] == nil {
+				b.Shapes[parts[1]] = map[string]int{}
+			}
+			b.Shapes[parts[1]][parts[2]]++
+			continue
+		}
+		if parts[0] == "switchtag" {
+			if b.Tags[parts[1]] == nil {
+				b.Tags[parts[1]] = map[string]bool{}
+			}
+			b.Tags[parts[1]][parts[2]] = true
+			continue
 		}
 		if parts[0] == "local" {
 			if b.Locals[parts[1]] == nil {
@@ -121,7 +137,8 @@ func (p *Program) declObjects() []declObj {
 					var fts []string
 					for i := 0; i < st.NumFields(); i++ {
 						fts = append(fts, ts(st.Field(i).Type()))
-						out = append(out, declObj{Decl{"field", q + "." + st.Field(i).Name(), ts(st.Field(i).Type())}, st.Field(i)})
+						ft := st.Field(i).Type()
+						out = append(out, declObj{Decl{"field", q + "." + st.Field(i).Name(), ts(ft) + " ^" + ts(ft.Underlying())}, st.Field(i)})
 					}
 					desc = "struct{" + strings.Join(fts, "; ") + "}"
 				}
@@ -179,7 +196,19 @@ func (p *Program) DeclInventory() []string {
 					seen[line] = true
 					out = append(out, line)
 				}
+				// one line per local (duplicates count)
+				out = append(out, "localshape\t"+q+"\t"+looseKey(pkg.TypesInfo, def.rhs))
 			}
+			ast.Inspect(fd.Body, func(n ast.Node) bool {
+				if sw, ok := n.(*ast.SwitchStmt); ok && sw.Tag != nil {
+					line := "switchtag\t" + q + "\t" + exprKey(pkg.TypesInfo, sw.Tag)
+					if !seen[line] {
+						seen[line] = true
+						out = append(out, line)
+					}
+				}
+				return true
+			})
 		}
 	}
 	sort.Strings(out)
@@ -227,52 +256,68 @@ func localDefs(body ast.Node) []localDef {
 // new declarations of the same kind, owner and type. Only unique matches count.
 func (p *Program) detectRenames(b *Baseline, kinds ...string) map[types.Object]string {
 	out := map[types.Object]string{}
+	taken := map[string]bool{}
 	all := p.declObjects()
 	for _, kind := range kinds {
-		base := b.Decls[kind]
-		present := map[string]bool{}
-		var added []declObj
-		for _, d := range all {
-			if d.Kind != kind {
-				continue
+		for _, loose := range []bool{false, true} {
+			base := b.Decls[kind]
+			present := map[string]bool{}
+			var added []declObj
+			for _, d := range all {
+				if d.Kind != kind {
+					continue
+				}
+				present[d.Name] = true
+				if _, ok := base[d.Name]; !ok {
+					added = append(added, d)
+				}
 			}
-			present[d.Name] = true
-			if _, ok := base[d.Name]; !ok {
-				added = append(added, d)
+			owner := func(q string) string {
+				// package path may contain dots: the owner is everything before the last name component
+				// ("pkg.Type.field" -> "pkg.Type", "pkg.Func" -> "pkg")
+				return q[:strings.LastIndex(q, ".")]
 			}
-		}
-		owner := func(q string) string {
-			// package path may contain dots: the owner is everything before the last name component
-			// ("pkg.Type.field" -> "pkg.Type", "pkg.Func" -> "pkg")
-			return q[:strings.LastIndex(q, ".")]
-		}
-		group := func(name, typ string) string {
-			t, _ := splitOrd(typ)
-			return owner(name) + "|" + t
-		}
-		ord := func(typ string) int { _, n := splitOrd(typ); return n }
-		missing := map[string][]string{} // group -> missing baseline names
-		for name, typ := range base {
-			if !present[name] {
-				g := group(name, typ)
-				missing[g] = append(missing[g], name)
+			group := func(name, typ string) string {
+				t, _ := splitOrd(typ)
+				if i := strings.Index(t, " ^"); i >= 0 {
+					if loose {
+						t = t[i+2:] // underlying type: `f func(error) error` and `f errorTranslator` are the same slot
+					} else {
+						t = t[:i]
+					}
+				}
+				return owner(name) + "|" + t
 			}
-		}
-		addedBy := map[string][]declObj{}
-		for _, d := range added {
-			g := group(d.Name, d.Type)
-			addedBy[g] = append(addedBy[g], d)
-		}
-		for g, ms := range missing {
-			as := addedBy[g]
-			if len(ms) != len(as) {
-				continue
+			ord := func(typ string) int { _, n := splitOrd(typ); return n }
+			missing := map[string][]string{} // group -> missing baseline names
+			for name, typ := range base {
+				if !present[name] && !taken[name] {
+					g := group(name, typ)
+					missing[g] = append(missing[g], name)
+				}
 			}
-			// several same-typed renames under one owner are paired in declaration order
-			sort.Slice(ms, func(i, j int) bool { return ord(base[ms[i]]) < ord(base[ms[j]]) })
-			sort.Slice(as, func(i, j int) bool { return ord(as[i].Type) < ord(as[j].Type) })
-			for i, old := range ms {
-				out[as[i].obj] = old[strings.LastIndex(old, ".")+1:]
+			addedBy := map[string][]declObj{}
+			for _, d := range added {
+				if _, done := out[d.obj]; done {
+					continue
+				}
+				g := group(d.Name, d.Type)
+				addedBy[g] = append(addedBy[g], d)
+			}
+			for g, ms := range missing {
+				as := addedBy[g]
+				if len(ms) != len(as) {
+					continue
+				}
+				// several same-typed renames under one owner are paired in declaration order
+				sort.Slice(ms, func(i, j int) bool { return ord(base[ms[i]]) < ord(base[ms[j]]) })
+				sort.Slice(as, func(i, j int) bool { return ord(as[i].Type) < ord(as[j].Type) })
+				for i, old := range ms {
+					if _, done := out[as[i].obj]; !done && !taken[old] {
+						out[as[i].obj] = old[strings.LastIndex(old, ".")+1:]
+						taken[old] = true
+					}
+				}
 			}
 		}
 	}
@@ -345,7 +390,12 @@ var _ = packages.NeedName
 
 // exprKey renders an expression with every constant subexpression replaced by its value, so that
 // naming a literal (or renaming a constant) does not make a defining expression look new.
-func exprKey(info *types.Info, e ast.Expr) string {
+func exprKey(info *types.Info, e ast.Expr) string { return exprKeyMode(info, e, false) }
+
+// looseKey additionally forgets the names of fields and the types of locals (shape only).
+func looseKey(info *types.Info, e ast.Expr) string { return exprKeyMode(info, e, true) }
+
+func exprKeyMode(info *types.Info, e ast.Expr, loose bool) string {
 	var sb strings.Builder
 	var walk func(e ast.Expr)
 	list := func(es []ast.Expr) {
@@ -368,7 +418,11 @@ func exprKey(info *types.Info, e ast.Expr) string {
 		case *ast.Ident:
 			// local variables and parameters by type, not by name
 			if v, ok := info.Uses[x].(*types.Var); ok && !v.IsField() && v.Pkg() != nil && v.Parent() != v.Pkg().Scope() {
-				sb.WriteString("$" + types.TypeString(v.Type(), types.RelativeTo(v.Pkg())))
+				if loose {
+					sb.WriteString("$")
+				} else {
+					sb.WriteString("$" + types.TypeString(v.Type(), types.RelativeTo(v.Pkg())))
+				}
 				return
 			}
 			sb.WriteString(x.Name)
@@ -378,7 +432,11 @@ func exprKey(info *types.Info, e ast.Expr) string {
 			sb.WriteString(")")
 		case *ast.SelectorExpr:
 			walk(x.X)
-			sb.WriteString("." + x.Sel.Name)
+			if v, ok := info.Uses[x.Sel].(*types.Var); ok && v.IsField() && loose {
+				sb.WriteString(".~")
+			} else {
+				sb.WriteString("." + x.Sel.Name)
+			}
 		case *ast.CallExpr:
 			walk(x.Fun)
 			sb.WriteString("(")
